@@ -51,7 +51,10 @@ def limit_cases(rng, count):
         other = {"name": "Far", "cells": [cell(MAXROW, MAXCOL, "corner"), cell(1, MAXCOL, "tr"), cell(MAXROW, 1, "bl")],
                  "rows": [{"r": MAXROW, "h": 40}], "cols": [{"c": MAXCOL, "w": 30}], "merges": [rect(MAXROW - 1, 1, MAXROW, 2)],
                  "comments": [], "cf": [], "af": []}
-        steps = [{"a": "Init", "sheets": [sheet, other]}]
+        # a third sheet whose name differs from the first one's only in case: by-name entry points must not mix them up
+        twin = {"name": "EDGE", "cells": [cell(r0, c0, "t"), cell(1, 1, "u")], "rows": [{"r": r0, "h": 19}], "cols": [],
+                "merges": [rect(r0, c0, r0 + 1, c0)], "comments": [], "cf": [], "af": []}
+        steps = [{"a": "Init", "sheets": [sheet, other, twin]}]
         top = {"row": r0 + 2, "col": c0 + 2}
         lim = {"row": MAXROW, "col": MAXCOL}
         for _ in range(rng.randint(1, 6)):
